@@ -215,8 +215,11 @@ func c19M6(r *core.R) {
 				continue
 			}
 			lo, hi, _ := m.bounds(fi, c19LoopStayFacts(outer))
-			own := m.fetchesIn(outer.Body)
-			if lo == nil || len(own) != 1 {
+			if lo == nil {
+				continue
+			}
+			probeP, _ := m.probeOf(&c19Frame{fi: fi}, outer)
+			if probeP == nil {
 				continue
 			}
 			nloops++
@@ -225,7 +228,7 @@ func c19M6(r *core.R) {
 			par := parentsOf(r.P, fi)
 			// the states this iteration probes (the middle and what the scans find), and their copies
 			vars := map[types.Object]bool{}
-			if v := m.resultVar(par, own[0]); v != nil {
+			if v := m.resultVar(par, probeP.site); v != nil {
 				vars[v] = true
 			}
 			var scans []*c19Scan
@@ -247,7 +250,7 @@ func c19M6(r *core.R) {
 				}
 			}
 			g := m.graph(fi)
-			blk, idx := blockOf(g.g, own[0].Pos())
+			blk, idx := blockOf(g.g, probeP.site.Pos())
 			if nT != 1 || len(vars) == 0 || blk == nil {
 				r.Unknown(cLo, outer.Pos(), "%s has %d time.Time parameters / the probe of the middle is not assigned to a variable: the query time or the probed state is not identified", fname, nT)
 				r.Unknown(cHi, outer.Pos(), "see %s", cLo)
@@ -377,7 +380,7 @@ func c19M6(r *core.R) {
 	c19M6Roles(r, m, tsFld)
 	r.Stat("binary_search_loops_classified", nloops)
 	if nloops == 0 {
-		r.Anchor("binary-search loop (a `for` over lo.SeqNum < hi.SeqNum with one state fetch of its own)")
+		r.Anchor("binary-search loop (a `for` over lo.SeqNum < hi.SeqNum that obtains one probed state per iteration, by a fetch of its own or through a probe helper)")
 	}
 }
 
